@@ -305,6 +305,18 @@ func suiteC11(c *ctx) {
 			cases = append(cases, rc)
 		}
 	}
+	for i := 0; i < c.n(40); i++ {
+		// raw streams that END with their data: the final block is a non-empty stored block (or a
+		// Huffman block) and the source delivers exactly the stream, then blocks or fails
+		sp := &SynthSpec{Seed: r.U64(), Blocks: 1 + r.Intn(3), Size: r.Pick([]int{1, 5, 300, 5000, 40000}), Kinds: r.PickS([]string{"s", "s", "sd", "sfd", "f"})}
+		st := StreamSpec{Kind: "synth", Synth: sp}
+		stream, data, _, _ := st.Materialize()
+		rc := &RCase{Prop: "C11", ID: fmt.Sprintf("C11-s%d", i), API: "flate", Stream: st, Cut: -1, Ctor: r.PickS([]string{"new", "new", "reset"}),
+			Reads: r.PickS([]string{"big", "k257", "rand"}), RSeed: r.U64(), Expect: len(data)}
+		rc.Src = SrcSpec{Kind: r.PickS([]string{"bufio", "bufio", "plain"}), Buf: r.Pick(bufSizes), Chunk: r.PickS([]string{"all", "one", "rand", "k4096"}), Seed: r.U64(),
+			Term: r.PickS([]string{"gate", "gate", "err", "errdata"}), After: len(stream)}
+		cases = append(cases, rc)
+	}
 	parallelJ(len(cases), func(i int) interface{} { return cases[i] }, func(i int) { checkC11(c.rep, c.pool, cases[i]) })
 }
 
@@ -407,10 +419,11 @@ func suiteC15(c *ctx) {
 		st, _, _, _ := s.Materialize()
 		var ks []int
 		if len(st) <= 60 {
-			for k := 0; k < len(st); k++ {
+			for k := 0; k <= len(st); k++ {
 				ks = append(ks, k)
 			}
 		} else {
+			ks = append(ks, len(st))
 			for k := 0; k < 12; k++ {
 				ks = append(ks, r.Intn(len(st)))
 			}
@@ -463,6 +476,13 @@ func suiteC18(c *ctx) {
 	for i := 0; i < c.n(60); i++ {
 		s := pickSetting(r, []string{"flate"}, true)
 		wc = append(wc, genHistory(r, "C18", i, s, false, i%2 == 0))
+	}
+	for i := 0; i < c.n(48); i++ {
+		// long inputs made of back-references of every length and distance: every token-packing path of
+		// the accelerated encoders sees tokens of every bit length at every bit offset
+		s := Setting{API: "flate", Level: []int{1, 2, -1}[i%3], Win4K: i%8 == 7}
+		n := r.Range(300000, 500000)
+		wc = append(wc, &WCase{Prop: "C18", ID: fmt.Sprintf("C18-refs%d", i), Set: s, Datas: []DataSpec{{Gen: "refs", Seed: r.U64(), N: n}}, Ops: []Op{{K: "w", N: n}, {K: "c"}}})
 	}
 	parallelJ(len(wc), func(i int) interface{} { return wc[i] }, func(i int) { checkHistory(c.rep, c.pool, wc[i]) })
 }
